@@ -11,8 +11,8 @@ BAD=0
 cd /verif
 for d in benign/*/; do
   id=$(basename "$d")
-  if ! git -C "$WT" apply --check "$d/patch.diff" 2>/dev/null; then echo "$id does-not-apply"; continue; fi
-  git -C "$WT" apply "$d/patch.diff"
+  if ! git -C "$WT" apply --check "/verif/$d/patch.diff" 2>/dev/null; then echo "$id does-not-apply"; continue; fi
+  git -C "$WT" apply "/verif/$d/patch.diff"
   NZ=$(/venv/bin/python -m pennyverif check all --root "$WT" --no-evidence 2>&1 | grep -E "exit [12]$" | sed -E 's/:.*-> / /' | tr '\n' ';')
   git -C "$WT" checkout -q -- . ; git -C "$WT" clean -fdq
   echo "$id nonzero=[$NZ]"
